@@ -10,6 +10,7 @@ pub mod c04;
 pub mod c05;
 pub mod c06;
 pub mod c07;
+pub mod c08;
 pub mod c09;
 pub mod c10;
 pub mod c11;
@@ -46,6 +47,7 @@ pub fn run(id: &str, rep: &mut Report) -> bool {
             rep.alpha("every best-individual update of every run of all 21 templates (best <= every member, monotone, replaced only on strict improvement); at the end of the run best = minimum the objective function returned");
             runs::sweep(rep, crate::subject::templates::Flags { c07: true, ..Default::default() }, "templates.every-step.best-so-far", &|_| true)
         }
+        "C08" => c08::run(rep),
         "C09" => c09::run(rep),
         "C10" => c10::run(rep),
         "C11" => c11::run(rep),
@@ -73,6 +75,7 @@ pub fn replay(id: &str, case: &Value) -> Result<Vec<(String, String)>, String> {
         "C05" => if case.get("spec").is_some() { runs::replay(case) } else { c05::replay_a(case) },
         "C06" => if case.get("spec").is_some() { runs::replay(case) } else { c06::replay_a(case) },
         "C07" => if case.get("spec").is_some() { runs::replay(case) } else { c07::replay_a(case) },
+        "C08" => c08::replay(case),
         "C09" => c09::replay(case),
         "C10" => c10::replay(case),
         "C11" => c11::replay(case),
